@@ -311,6 +311,9 @@ def parse_out(paths):
 SPECIAL = ("ORACLE", "META", "KF", "NOTE")
 
 
+CRASHES = []   # (case id, case text, message) of shards the Go runtime ended; filled by run_cases
+
+
 def run_cases(prop, casefile, work, tag, timeout=3000):
     """Run harness and model on a case file (sharded). Returns (impl, model) dicts and errors."""
     cfg = PROPS[prop]
@@ -322,19 +325,28 @@ def run_cases(prop, casefile, work, tag, timeout=3000):
     for (argv, outp), rc in zip(impl_cmds, rcs):
         if rc != 0:
             msg = "harness rc=%s on %s: %s" % (rc, os.path.basename(outp), open(outp + ".err").read()[-2000:])
-            if rc == 124:
-                # killed at the time limit: name the case that was running (the first one of the
-                # shard without an oracle verdict) so that the hang can be replayed
-                try:
-                    done = {ln.split(" ", 1)[0] for ln in open(outp, errors="replace") if " ORACLE " in ln}
-                    shard_texts = read_case_texts(argv[3])
-                    hung = [cid for cid in shard_texts if cid not in done]
-                    if hung:
-                        msg = ("the implementation did not finish case %s within the time limit of %d s "
-                               "(shard killed; the cases behind it were not run)\n%s\n%s"
-                               % (hung[0], timeout, shard_texts[hung[0]][:3000], msg))
-                except Exception:
-                    pass
+            # the shard did not finish: name the case that was running (the first one of the shard
+            # without an oracle verdict) so that it can be replayed
+            try:
+                done = {ln.split(" ", 1)[0] for ln in open(outp, errors="replace") if " ORACLE " in ln}
+                shard_texts = read_case_texts(argv[3])
+                hung = [cid for cid in shard_texts if cid not in done]
+            except Exception:
+                hung, shard_texts = [], {}
+            if rc == 124 and hung:
+                msg = ("the implementation did not finish case %s within the time limit of %d s "
+                       "(shard killed; the cases behind it were not run)\n%s\n%s"
+                       % (hung[0], timeout, shard_texts[hung[0]][:3000], msg))
+            elif rc != 124 and hung:
+                err_text = open(outp + ".err", errors="replace").read()
+                m = re.search(r"^(panic: .*|fatal error: .*)$", err_text, re.M)
+                if m:
+                    # the Go runtime ended the process while the implementation ran this case (a panic in
+                    # a goroutine of the code under test, a fatal error such as a concurrent map write):
+                    # a failing input, replayable on its own
+                    CRASHES.append((hung[0], shard_texts[hung[0]],
+                                    "the process running the implementation died on this case: %s" % m.group(1)[:300]))
+                    continue
             errors.append(msg)
     if cfg.get("model_input", "cases") == "impl":
         model_cmds = [([MODEL, prop, s + ".impl"], s + ".model") for s in shards]
@@ -570,6 +582,14 @@ def main():
             impl, model, errors = run_cases(prop, cf, work, tag, timeout=cfg.get("timeout", {}).get(tier, 900 if tier == "quick" else 3000))
             for e in errors:
                 broken.append("run: " + e)
+            while CRASHES:
+                cid, ctext, cmsg = CRASHES.pop(0)
+                rp = os.path.join(ROOT, "replays", "%s-%d-%s.case" % (prop, seed, re.sub(r"[^A-Za-z0-9_.-]", "_", cid)))
+                with open(rp, "w") as f:
+                    f.write("# VIOLATION of %s: %s\n# replay: ./check %s --replay %s\n" % (prop, cmsg, prop, rp))
+                    f.write(ctext)
+                violations.append((rp, False, cmsg))
+                fail_msgs.append(cmsg)
             res = classify(prop, impl, model, cfg.get("model_input", "cases"))
             total += len(texts)
             all_ids |= set(texts)
